@@ -435,6 +435,46 @@ def rule_sib(ctx, f, ast, rt, a):
         ok_kinds = compatible(wk, rk)
         ctx.check(ok_kinds, "C08-SIB", key + ".operands",
                   "`%s` is written with operands %s but the reader takes %s" % (kw, wk, rk), where, detail="operands %s" % rk)
+        # which value goes where: when the serializer prints the fields under the names the reader fills (same identifiers), the order of the
+        # printed operands is the order in which the reader takes them
+        wnames = []
+        simple = True
+        for e0 in row["writes"]:
+            if e0[0] == "write":
+                for a0 in e0[1].get("args", []):
+                    if re.match(r"^[a-z_][a-z0-9_]*$", a0):
+                        wnames.append(a0)
+                    else:
+                        simple = False
+            elif e0[0] == "wserialize":
+                rv0 = e0[1].get("recv", "")
+                if re.match(r"^[a-z_][a-z0-9_]*$", rv0):
+                    wnames.append(rv0)
+                else:
+                    simple = False
+            elif e0[0] in ("wname", "loop"):
+                simple = False
+        enames = [fn0 for d0, fl0 in r["ops"] for fn0, fe0 in fl0.items() if fe0.get("text") in (None, fn0)]
+        if simple and wnames and set(wnames) == set(enames) and len(wnames) == len(enames):
+            ctx.check(wnames == enames, "C08-SIB", key + ".operand-order", "`%s` is written with the operands in the order %s, the reader assigns them in the order %s" % (kw, wnames, enames),
+                      where, detail="operands in the order %s" % enames)
+        # a shorthand chosen by a value test (v, y): the test has to be the relation the reader uses to rebuild the omitted operand
+        pos_conds = [c0 for c0 in conds if not c0.startswith("not:")]
+        for d0, fl0 in r["ops"]:
+            for fn0, fe0 in fl0.items():
+                t0 = norm(fe0.get("text") or "")
+                if not t0 or t0 == fn0:
+                    continue
+                if t0 in fl0 and t0 != fn0:
+                    need = {"%s==%s" % (fn0, t0), "%s==%s" % (t0, fn0)}
+                    okc = any(c0 in need for c0 in pos_conds)
+                elif t0 == "self.last":
+                    okc = any(fn0 in c0 and "current_point" in c0 and "==" in c0 for c0 in pos_conds)
+                else:
+                    continue
+                if conds or kw in ("v", "y"):
+                    ctx.check(okc, "C08-SIB", key + ".shorthand-condition", "`%s` leaves out the operand the reader rebuilds as %s = %s, but the serializer chooses it under %s"
+                              % (kw, fn0, t0, pos_conds or "no test"), where, detail="%s chosen when %s == %s" % (kw, fn0, t0))
         # guard relation
         if row["guard"]:
             g = norm(row["guard"])
@@ -610,6 +650,39 @@ def rule_adj(ctx, f, rt):
     return a
 
 
+def rule_display(ctx, f):
+    ctx.rule("C08-SIB-display", "the Display impls the serializer's `{}` placeholders go through (Point, Rgb, Cmyk, Matrix, ViewRect) print exactly as many "
+             "numbers as the operator reads, separated by one space and nothing else")
+    a = adj.get_adj(f, adj.OBJECT_KEYWORDS)
+    n = 0
+    for ty, kinds in sorted(DISPLAY_KINDS.items()):
+        if not ty.startswith("content::"):
+            continue
+        b = f.body("<%s as std::fmt::Display>::fmt" % ty)
+        if b is None:
+            ctx.lost("C08-SIB-display", "Display for " + ty)
+            continue
+        fn = a.ast.fn_for_body(b)
+        if fn is None:
+            ctx.lost("C08-SIB-display", "syntax tree of Display for " + ty)
+            continue
+
+        def _walk(x):
+            if isinstance(x, dict):
+                yield x
+                for v in x.values():
+                    yield from _walk(v)
+            elif isinstance(x, list):
+                for y in x:
+                    yield from _walk(y)
+        fmts = [x["fmt"] for x in _walk(fn["body"]) if x.get("k") == "macro" and x.get("fmt") is not None]
+        n += 1
+        want = " ".join(["{}"] * len(kinds))
+        ctx.check(fmts == [want], "C08-SIB-display", ty + "#format", "%s is printed with %s (the operator reads %d numbers separated by white-space: %r)" % (ty, fmts, len(kinds), want),
+                  b["span"], detail=want)
+    ctx.floor("C08-SIB-display", n, 5, "Display impls of operand types")
+
+
 def run(ctx):
     f = F.load("default")
     ctx.count("bodies", len(f.bodies))
@@ -629,6 +702,7 @@ def run(ctx):
     rule_sib(ctx, f, ast, rt, a)
     rule_current_point(ctx, f, ast, rt, a)
     rule_enum_cast(ctx, f, ast)
+    rule_display(ctx, f)
     rule_drain(ctx, f)
     return ctx.finish(
         "Static analysis of the syntax trees of the operator dispatcher and the serializer (astx), joined with MIR facts for placeholder types "
